@@ -1,6 +1,7 @@
 //! Call histories on FindMatches iterators: operations, execution engine, recorded outputs.
 use crate::cfg::*;
 use crate::gen::*;
+use crate::ir::{LitStyle, Re};
 use crate::monitor::sut;
 use crate::refsem::RefPattern;
 use crate::rng::Rng;
@@ -85,7 +86,13 @@ pub fn exec_op(it: &mut FindMatches, op: &Op, last_peek: &mut Option<Peeked>) ->
         }
         Op::AdvanceTo(p) => Out::Advance(Some((*p, it.advance_to(*p)))),
         Op::SetOffset(o) => {
-            it.set_offset(*o);
+            // the iterator can be reset through its own method and through the PositionProvider
+            // trait; both are the same operation by contract, both are used
+            if *o % 2 == 0 {
+                it.set_offset(*o);
+            } else {
+                PositionProvider::set_offset(it, *o);
+            }
             *last_peek = None;
             Out::Unit
         }
@@ -249,7 +256,19 @@ pub fn gen_multi_mode(rng: &mut Rng, p: &GenParams, la_percent: usize, max_modes
     // switches into the twin
     if !cfg!(miri) && rng.chance(1, 10) {
         let k = rng.below(modes.len());
+        // sometimes the two modes are not equal but only LOOK equal when their pattern texts are
+        // written one after the other: ("ab", "c") against ("a", "bc"), same token types
+        let resplit = modes[k].pats.len() >= 2 && modes[k].pats[0].la.is_none() && rng.chance(1, 3);
+        if resplit {
+            let w = |t: &str| Re::Cat(t.chars().map(|c| Re::Lit(c, LitStyle::Verbatim)).collect());
+            modes[k].pats[0].re = w("ab");
+            modes[k].pats[1].re = Re::Lit('c', LitStyle::Verbatim);
+        }
         let mut twin = modes[k].clone();
+        if resplit {
+            twin.pats[0].re = Re::Lit('a', LitStyle::Verbatim);
+            twin.pats[1].re = Re::Cat(vec![Re::Lit('b', LitStyle::Verbatim), Re::Lit('c', LitStyle::Verbatim)]);
+        }
         twin.name = format!("{}_twin", twin.name);
         let twin_index = modes.len();
         if rng.chance(1, 2) {
